@@ -76,6 +76,10 @@ extern "C" fn foreign_plain(sig: libc::c_int) {
     sched::log("foreign_plain", sig as u64, 0);
 }
 
+extern "C" fn foreign_plain2(sig: libc::c_int) {
+    sched::log("foreign_plain2", sig as u64, 0);
+}
+
 extern "C" fn foreign_info(sig: libc::c_int, info: *mut libc::siginfo_t, ctx: *mut libc::c_void) {
     let signo = if info.is_null() { -1 } else { unsafe { (*info).si_signo } };
     let ok = (!info.is_null() && !ctx.is_null() && signo == sig) as u64;
@@ -408,6 +412,120 @@ pub fn build_h1_endurance(name: &'static str, rounds: u64) -> Scenario<Arc<H1E>>
 }
 
 // ---------------------------------------------------------------------------------------------
+// Registry endurance: a delivery is stalled inside its first action (thread off the processor) while
+// a later action of the same signal is being removed. The removal may take as long as it likes; once
+// it has returned the removed action must not run any more - not even in the stalled delivery - and
+// what it captured has been released. One forced schedule, `rounds` barrier rounds long.
+
+pub struct RegE {
+    inside: [i32; 2],
+    go: [i32; 2],
+    id1: reg::SigId,
+    id2: Mutex<Option<reg::SigId>>,
+}
+
+pub fn build_reg_endurance(name: &'static str, prop: &'static str, rounds: u64) -> Scenario<Arc<RegE>> {
+    let setup = move || {
+        fresh_registry(&[(S1, Disp::Ignore), (S2, Disp::Ignore)]);
+        let mut a = [0i32; 2];
+        let mut b = [0i32; 2];
+        unsafe {
+            libc::pipe(a.as_mut_ptr());
+            libc::pipe(b.as_mut_ptr());
+        }
+        let (inside_w, go_r) = (a[1], b[0]);
+        let c1 = ActCanary(1);
+        let id1 = unsafe {
+            reg::register(S1, move || {
+                let c = &c1;
+                sched::log("act_begin", c.0, 0);
+                libc::write(inside_w, b"x".as_ptr() as *const _, 1);
+                sched::wait_readable(go_r);
+                sched::log("act_end", c.0, 0);
+            })
+        }
+        .expect("register");
+        let id2 = unsafe { reg::register(S1, make_action(2, false)) }.expect("register");
+        Arc::new(RegE { inside: a, go: b, id1, id2: Mutex::new(Some(id2)) })
+    };
+    let d = ThreadSpec {
+        name: "D",
+        body: Box::new(move |_s: &Arc<RegE>| {
+            sched::raise(S1);
+        }),
+        nest_signals: vec![],
+        max_nest: 0,
+    };
+    let m = ThreadSpec {
+        name: "M",
+        body: Box::new(move |s: &Arc<RegE>| {
+            sched::wait_readable(s.inside[0]);
+            let id = s.id2.lock().unwrap().take().unwrap();
+            sched::log("unreg_call", 2, 0);
+            let r = reg::unregister(id);
+            sched::log("unreg_ret", 2, r as u64);
+        }),
+        nest_signals: vec![],
+        max_nest: 0,
+    };
+    let q = ThreadSpec {
+        name: "Q",
+        body: Box::new(move |s: &Arc<RegE>| {
+            sched::await_quiescence();
+            sched::log("delivery_released", 0, 0);
+            unsafe {
+                libc::write(s.go[1], b"x".as_ptr() as *const _, 1);
+            }
+        }),
+        nest_signals: vec![],
+        max_nest: 0,
+    };
+    let finish = move |s: Arc<RegE>, e: &mut Exec| -> Result<u64, String> {
+        let s = Arc::try_unwrap(s).map_err(|_| "engine: state shared".to_string())?;
+        reg::unregister(s.id1);
+        for fd in s.inside.iter().chain(s.go.iter()) {
+            unsafe {
+                libc::close(*fd);
+            }
+        }
+        drop(s);
+        if !e.panics.is_empty() {
+            return Err(format!("C18: panicked: {:?}", e.panics));
+        }
+        let pos = |tag: &str, a: u64| e.log.iter().position(|ev| ev.tag == tag && ev.a == a);
+        let released = pos("delivery_released", 0).ok_or("engine: the stalled delivery was never released")?;
+        let ret = pos("unreg_ret", 2).ok_or("C18: unregister never returned")?;
+        let spins = e.log[..released].iter().filter(|ev| ev.tag == "yield" || ev.tag == "spin_hint").count() as u64;
+        if let Some(b2) = e.log.iter().position(|ev| ev.tag == "act_begin" && ev.a == 2) {
+            if b2 > ret {
+                return Err(format!("{}: action 2 ran after its removal had returned (the removal gave up waiting for a delivery that was stalled in an earlier action, after at most {} rounds)", prop, spins));
+            }
+        }
+        match pos("act_drop", 2) {
+            None => return Err(format!("C01: what action 2 captured was never released although its removal returned (after at most {} rounds of waiting)", spins)),
+            Some(dr) => {
+                if dr > ret {
+                    return Err("C01: what action 2 captured was released only after its removal had returned".into());
+                }
+            }
+        }
+        if spins < rounds {
+            return Err(format!("engine: the endurance run let the remover wait only {} rounds (wanted {})", spins, rounds));
+        }
+        Ok(1)
+    };
+    Scenario {
+        name: name.to_string(),
+        opts: Opts { stale_reads: false, stale_depth: 2, max_spurious: 0, horizon: 16 * rounds + 10_000, log_ops: false, log_handler_ops: false, reduce: false, no_discipline: true, nest_value_t1: 0, post_points: false, no_race_check: false, start_points: false, endurance: rounds },
+        signals: vec![S1, S2],
+        setup: Box::new(setup),
+        threads: vec![d, m, q],
+        finish: Box::new(finish),
+        monitor: Some(Box::new(|| Box::new(SnapMon::default()) as Box<dyn Monitor>)),
+    }
+}
+
+// ---------------------------------------------------------------------------------------------
 // Registry scenarios
 
 pub struct ActCanary(pub u64);
@@ -426,6 +544,9 @@ pub enum MOp {
     RegForbidden,
     /// registration through the unchecked entry point (the only way to hook SIGFPE / SIGILL / SIGSEGV)
     RegUnchecked(i32, u64),
+    /// a refused unchecked registration whose action owns a guard that unregisters action `tag` when it is
+    /// destroyed (the destructor of a refused action re-enters the registry)
+    RegRefusedGuard(u64),
     /// an unchecked registration the OS refuses (SIGKILL: its disposition can be read, not changed)
     RegRefused,
 }
@@ -487,6 +608,24 @@ fn run_mops(s: &RS, ops: &[MOp], pause: bool) {
                 s.ids.lock().unwrap().insert(*tag, id);
                 sched::log("reg_ret", *tag, *sig as u64);
             }
+            MOp::RegRefusedGuard(tag) => {
+                struct Guard(Option<reg::SigId>, u64);
+                impl Drop for Guard {
+                    fn drop(&mut self) {
+                        sched::log("unreg_call", self.1, 0);
+                        let r = self.0.take().map_or(false, reg::unregister);
+                        sched::log("unreg_ret", self.1, r as u64);
+                    }
+                }
+                let g = Guard(s.ids.lock().unwrap().get(tag).copied(), *tag);
+                sched::log("regrefused_call", 1, 0);
+                let r = unsafe {
+                    reg::register_unchecked(libc::SIGKILL, move |_| {
+                        let _ = &g;
+                    })
+                };
+                sched::log("regrefused_ret", r.is_err() as u64, 1);
+            }
             MOp::RegRefused => {
                 sched::log("regrefused_call", 0, 0);
                 let r = unsafe { reg::register_unchecked(libc::SIGKILL, |_| ()) };
@@ -514,6 +653,9 @@ pub struct RP {
     pub stale: bool,
     /// max own steps of one delivery without failed CAS (C03)
     pub max_delivery_steps: u64,
+    /// C04: another thread installs a handler of its own for this signal with a plain sigaction call, at
+    /// any instant before the library's handler is the disposition
+    pub foreign_installer: Option<i32>,
 }
 
 struct Delivery {
@@ -547,7 +689,7 @@ fn parse_deliveries(log: &[Ev]) -> Vec<Delivery> {
                     out[d].acts.push((ev.a, i));
                 }
             }
-            "foreign_plain" | "foreign_info" => {
+            "foreign_plain" | "foreign_info" | "foreign_plain2" => {
                 if let Some(&d) = stack.get(&ev.tid).and_then(|s| s.last()) {
                     out[d].foreign.push((i, ev.tag, ev.b));
                 }
@@ -737,6 +879,25 @@ fn check_registry(log: &[Ev], p: &RP, e: &Exec) -> Result<u64, String> {
             }
         }
     }
+    // --- C02 / C05: unregister_signal removes all actions of the signal in one step
+    if p.prop == "C02" || p.prop == "C05" {
+        let calls: Vec<(usize, i32)> = log.iter().enumerate().filter(|(_, e)| e.tag == "unregsig_call").map(|(i, e)| (i, e.a as i32)).collect();
+        for (ci, sig) in calls {
+            let all: Vec<(u64, usize)> = acts.iter().filter(|(_, a)| a.sig == sig && a.rm_call == ci).map(|(t, a)| (*t, a.reg_ret)).collect();
+            for d in deliveries.iter().filter(|d| d.sig == sig) {
+                // the actions whose registration had returned before this delivery began (later ones may
+                // legitimately be missing from the state it ran)
+                let group: Vec<u64> = all.iter().filter(|(_, r)| *r < d.begin).map(|(t, _)| *t).collect();
+                if group.len() < 2 {
+                    continue;
+                }
+                let ran = group.iter().filter(|t| d.acts.iter().any(|x| x.0 == **t)).count();
+                if ran != 0 && ran != group.len() {
+                    return Err(format!("{}: a delivery of signal {} ran {} of the {} actions that one unregister_signal call removed together - a registry state that never existed (the bulk removal is not one step)", p.prop, sig, ran, group.len()));
+                }
+            }
+        }
+    }
     // --- C04: chaining of the previous handler
     if p.prop == "C04" {
         for d in &deliveries {
@@ -747,6 +908,20 @@ fn check_registry(log: &[Ev], p: &RP, e: &Exec) -> Result<u64, String> {
                         return Err(format!("C04: the pre-existing handler of signal {} ran {} times in one delivery (must be exactly once)", d.sig, d.foreign.len()));
                     }
                     let (fi, ftag, fok) = d.foreign[0];
+                    if p.foreign_installer == Some(d.sig) {
+                        // the handler that was installed when the library took the signal over - or, before
+                        // that, whatever the disposition is - is the last one installed before this delivery
+                        let replaced = log[..d.begin].iter().any(|e| e.tag == "foreign2_installed" && e.a as i32 == d.sig);
+                        let want = if replaced { "foreign_plain2" } else if disp == Disp::Plain { "foreign_plain" } else { "foreign_info" };
+                        if ftag != want {
+                            let registered = acts.values().any(|a| a.sig == d.sig && a.reg_ret < d.begin);
+                            if registered {
+                                return Err(format!("C04: a delivery of signal {} that began after the first registration had returned chained {} although {} was the handler installed when the library took the signal over", d.sig, ftag, want));
+                            }
+                            return Err(format!("C04w: a delivery of signal {} inside its first registration chained the handler that a concurrent sigaction had replaced before the take-over ({} instead of {}): the fallback holds the disposition looked up earlier", d.sig, ftag, want));
+                        }
+                        continue;
+                    }
                     if let Some(first_act) = d.acts.first() {
                         if first_act.1 < fi {
                             return Err(format!("C04: a registered action ran before the pre-existing handler of signal {}", d.sig));
@@ -860,6 +1035,25 @@ pub fn build_reg(p: RP) -> Scenario<Arc<RS>> {
             body: Box::new(move |s: &Arc<RS>| run_mops(s, &ops, pause)),
             nest_signals: if mi == 0 { p.nest.clone() } else { vec![] },
             max_nest: p.max_nest,
+        });
+    }
+    if let Some(fsig) = p.foreign_installer {
+        threads.push(ThreadSpec {
+            name: "F",
+            body: Box::new(move |_s: &Arc<RS>| {
+                sched::point("foreign_check", fsig as u64);
+                // one step: look and install (nothing else runs in between)
+                if current_handler(fsig).0 != shim::handler_address() {
+                    unsafe {
+                        let mut sa: libc::sigaction = std::mem::zeroed();
+                        sa.sa_sigaction = foreign_plain2 as usize;
+                        libc::sigaction(fsig, &sa, std::ptr::null_mut());
+                    }
+                    sched::log("foreign2_installed", fsig as u64, 0);
+                }
+            }),
+            nest_signals: vec![],
+            max_nest: 0,
         });
     }
     let dn = ["D1", "D2", "D3"];
@@ -1212,6 +1406,7 @@ fn rp(name: &'static str, prop: &'static str) -> RP {
         pause_in_action: false,
         stale: true,
         max_delivery_steps: 8,
+        foreign_installer: None,
     }
 }
 
@@ -1226,6 +1421,15 @@ pub fn scenarios(prop: &str, tier: Tier) -> Vec<Item> {
             v.push(item(build_h1(H1P { name: "h1_1w1_2r1", writers: vec![1], readers: vec![1, 1], nest_writer: false, stale: true }), if q { Some(3) } else { Some(5) }, "half-lock: 1 store vs 2 readers"));
             v.push(item(build_h1(H1P { name: "h1_1w2_2r2_nested", writers: vec![2], readers: vec![2, 2], nest_writer: true, stale: true }), b(2, 3), "2 stores vs 2x2 reads + a read nested in the writer at every boundary"));
             v.push(item(build_h1(H1P { name: "h1_2w_2r", writers: vec![1, 1], readers: vec![1, 2], nest_writer: true, stale: true }), b(2, 3), "2 writers vs 2 readers + nested read"));
+            // the same action removed from two threads at once: whichever call returns first, the action is quiescent
+            for (name, second) in [("reg_two_removers_same_action", Unreg(1)), ("reg_remover_vs_unregister_signal", UnregSig(S1))] {
+                let mut p = rp(name, "C01");
+                p.pre = vec![Reg(S1, 1)];
+                p.mutators = vec![vec![Unreg(1)], vec![second]];
+                p.deliverers = vec![vec![S1], vec![S1]];
+                p.pause_in_action = true;
+                v.push(item(build_reg(p), b(2, 3), "two removal calls for one action on two threads vs deliveries paused inside the action: when either call returns nothing is in progress and the captures are released"));
+            }
             // a signal of the forbidden list, hooked through the unchecked entry point and sent by software
             let mut p = rp("reg_unregister_vs_deliveries_sigfpe_unchecked", "C01");
             p.disps = vec![(libc::SIGFPE, Disp::Ignore), (S2, Disp::Ignore)];
@@ -1236,6 +1440,7 @@ pub fn scenarios(prop: &str, tier: Tier) -> Vec<Item> {
             p.pause_in_action = true;
             v.push(item(build_reg(p), b(2, 3), "the same on SIGFPE registered through register_unchecked and raised by software: removal is quiescent for every signal the registry can hold"));
             v.push(item(build_h1_endurance("h1_reader_off_cpu_endurance", 1_600_000), Some(0), "a reader stays inside its section while the writer goes through 1.6 million barrier rounds (a thread off the processor for a long time): the store must neither return nor release the old value before the reader leaves, and must do both afterwards; one forced schedule"));
+            v.push(item(build_reg_endurance("reg_delivery_off_cpu_endurance", "C01", 1_600_000), Some(0), "a delivery stalled inside an earlier action of the signal while a later action is removed, for 1.6 million barrier rounds: after the removal returned the action does not run and its captures are released; one forced schedule"));
             // registry
             let mut p = rp("reg_unregister_vs_deliveries", "C01");
             p.pre = vec![Reg(S1, 1)];
@@ -1281,6 +1486,13 @@ pub fn scenarios(prop: &str, tier: Tier) -> Vec<Item> {
                 p.nest = vec![S1, S2];
                 v.push(item(build_reg(p), Some(2), "two mutators on two signals, deliveries of both from two threads"));
             }
+            v.push(item(build_reg_endurance("snapshot_delivery_off_cpu_endurance", "C02", 1_600_000), Some(0), "a delivery stalled (off the processor) inside an earlier action while a later action is removed: no action runs whose removal had returned; one forced schedule, 1.6 million barrier rounds"));
+            let mut p = rp("snapshot_unregister_signal_of_three", "C02");
+            p.pre = vec![Reg(S1, 1), Reg(S1, 2), Reg(S1, 3)];
+            p.mutators = vec![vec![UnregSig(S1), Reg(S1, 4)]];
+            p.deliverers = vec![vec![S1, S1], vec![S1]];
+            p.nest = vec![S1];
+            v.push(item(build_reg(p), b(2, 3), "unregister_signal of three actions vs deliveries: all three or none"));
             let mut p = rp("snapshot_stale_unregister", "C02");
             p.pre = vec![Reg(S1, 1)];
             p.mutators = vec![vec![Reg(S1, 2), Unreg(2), Reg(S1, 3), Unreg(2), Reg(S1, 4), Unreg(2)]];
@@ -1334,6 +1546,12 @@ pub fn scenarios(prop: &str, tier: Tier) -> Vec<Item> {
                 p.nest = vec![libc::SIGURG];
                 v.push(item(build_reg(p), b(2, 3), "taken over from a handler installed with SA_RESETHAND|SA_NODEFER(|SA_ONSTACK): it is chained in every one of three deliveries and the library's handler stays installed without those flags"));
             }
+            let mut p = rp("chain_foreign_sigaction_during_first_registration", "C04");
+            p.disps = vec![(S1, Disp::Plain), (S2, Disp::Plain)];
+            p.mutators = vec![vec![Reg(S1, 1)]];
+            p.deliverers = vec![vec![S1, S1]];
+            p.foreign_installer = Some(S1);
+            v.push(item(build_reg(p), b(2, 3), "another thread replaces the pre-existing handler with a plain sigaction call at any instant before the library's handler is installed: afterwards the handler that was installed at the take-over is the one chained"));
             let mut p = rp("chain_two_signals_both_foreign", "C04");
             p.disps = vec![(S1, Disp::Info), (S2, Disp::Plain)];
             p.mutators = vec![vec![Reg(S1, 1)], vec![Reg(S2, 5)]];
@@ -1347,6 +1565,12 @@ pub fn scenarios(prop: &str, tier: Tier) -> Vec<Item> {
             p.mutators = vec![vec![Unreg(1), Reg(S1, 3)], vec![Reg(S2, 6), Unreg(5), Reg(S2, 7)]];
             p.deliverers = vec![vec![S1, S2]];
             v.push(item(build_reg(p), b(2, 3), "two mutators on two signals (unregister / register) + a delivery thread; afterwards probe deliveries must run exactly the registered actions, ids all distinct"));
+            let mut p = rp("unregister_signal_of_three_vs_deliveries", "C05");
+            p.pre = vec![Reg(S1, 1), Reg(S1, 2), Reg(S1, 3), Reg(S2, 5)];
+            p.mutators = vec![vec![UnregSig(S1), Reg(S1, 4)]];
+            p.deliverers = vec![vec![S1, S1], vec![S1]];
+            p.nest = vec![S1];
+            v.push(item(build_reg(p), b(2, 3), "unregister_signal of a signal with three actions vs deliveries on two threads and nested in the mutator: every delivery runs all three or none"));
             let mut p = rp("concurrent_same_signal", "C05");
             p.pre = vec![Reg(S1, 1), Reg(S1, 2)];
             p.mutators = vec![vec![Unreg(1), Reg(S1, 3)], vec![Reg(S1, 6), Unreg(2)]];
@@ -1375,6 +1599,11 @@ pub fn scenarios(prop: &str, tier: Tier) -> Vec<Item> {
             p.mutators = vec![vec![RegRefused, Reg(S1, 2), RegRefused], vec![Reg(S2, 5), Unreg(5)]];
             p.deliverers = vec![vec![S1]];
             v.push(item(build_reg(p), b(2, 3), "an unchecked registration the OS refuses (error path of a first registration), before and after a successful one, vs another mutator and a delivery"));
+            let mut p = rp("live_refused_registration_reentrant_drop", "C18");
+            p.pre = vec![Reg(S1, 1)];
+            p.mutators = vec![vec![RegRefusedGuard(1), Reg(S1, 2)], vec![Reg(S2, 5), Unreg(5)]];
+            p.deliverers = vec![vec![S1]];
+            v.push(item(build_reg(p), b(2, 3), "a refused registration whose action, when destroyed, unregisters another action (its destructor re-enters the registry): the call returns and later calls are not wedged"));
             let mut p = rp("live_same_signal", "C18");
             p.mutators = vec![vec![Reg(S1, 1), UnregSig(S1)], vec![Reg(S1, 5), Unreg(5)]];
             p.deliverers = vec![vec![S1], vec![S1]];
